@@ -1,0 +1,5 @@
+//go:build !verif
+
+package tmmirror
+
+func verifGate(string) {}
